@@ -507,6 +507,34 @@ pub fn run(o: &Opts) -> Report {
     for (line, reply) in hlines.iter().zip(&hreplies) {
         huf_check(&mut rep, line, reply);
     }
+    // serialised prefix codes (simple and normal, run-length tokens, max_symbol, every alphabet of
+    // the format; whole and truncated): the executable specification's reader and its
+    // proof-friendly twin Prefix.readCodeL must agree on lengths and on the bits consumed, and a
+    // whole serialisation must give back the generator's lengths
+    let ncodes = if o.thorough() { 3000 } else { 400 };
+    let mut clines = Vec::new();
+    let mut cexp = Vec::new();
+    for i in 0..ncodes {
+        let alphabet = *rng.pick(&[256usize, 280, 40, 256 + 24 + 2, 256 + 24 + 64, 256 + 24 + 2048, 19, 2]);
+        let (mut bytes, lengths) = crate::vp8lgen::serialised_code(&mut rng, alphabet);
+        let whole = i % 5 != 0;
+        if !whole { let k = rng.below(bytes.len() as u64 + 1) as usize; bytes.truncate(k); }
+        clines.push(format!("rcl {alphabet} {}", hex(&bytes)));
+        cexp.push(if whole { Some(lengths) } else { None });
+    }
+    let creplies = ask_parallel(&o.drv, &clines, 8);
+    for ((line, exp), reply) in clines.iter().zip(&cexp).zip(&creplies) {
+        rep.case(line, true);
+        rep.hit(if reply.starts_with("agree none") { "code_reader_twin_rejects" } else { "code_reader_twin_accepts" });
+        if !reply.starts_with("agree") {
+            rep.disagree(Disagreement { case: line.clone(), got: reply.chars().take(200).collect(), expected: "agree".into(), class: "correspondence", obligation: "specification twin: Prefix.readCodeL = VP8L.readCode (lengths and bits consumed)".into(), detail: String::new() });
+        } else if let Some(l) = exp {
+            let want = format!("agree {} used=", join(l));
+            if !reply.starts_with(&want) {
+                rep.disagree(Disagreement { case: line.clone(), got: reply.chars().take(200).collect(), expected: want, class: "correspondence", obligation: "the specification reads a generated serialisation back as the lengths it was made from".into(), detail: String::new() });
+            }
+        }
+    }
     for (name, s) in crafted() {
         one(&mut drv, &mut rep, &name, &s, dims_of(&s).map(|(w, h)| w * h <= 2500).unwrap_or(false));
     }
